@@ -411,6 +411,7 @@ struct SutState {
 
 impl Worker {
     pub fn new(params: &SeqParams) -> Worker {
+        crate::sut::set_id_family(params.alphabet.id_family);
         let suts = params
             .specs
             .iter()
@@ -1445,7 +1446,7 @@ fn spec_from_name(n: &str) -> Option<SutSpec> {
 pub fn params_to_json(p: &SeqParams) -> Value {
     json!({
         "n_clients": p.alphabet.n_clients, "anc_max": p.alphabet.anc_max, "foreign": p.alphabet.foreign,
-        "dup": p.alphabet.dup_payload, "big": p.alphabet.big_payload, "huge": p.alphabet.huge_payload, "snapshots": p.alphabet.snapshots, "ages": p.alphabet.ages,
+        "dup": p.alphabet.dup_payload, "big": p.alphabet.big_payload, "huge": p.alphabet.huge_payload, "id_family": p.alphabet.id_family, "snapshots": p.alphabet.snapshots, "ages": p.alphabet.ages,
         "days": p.cfg.days, "versions": p.cfg.versions,
         "specs": p.specs.iter().map(|s| s.name()).collect::<Vec<_>>(),
         "max_depth": p.max_depth, "unmerged_depth": p.unmerged_depth, "monitors": p.monitors,
@@ -1465,6 +1466,7 @@ pub fn params_from_json(v: &Value) -> SeqParams {
             ages: v["ages"].as_array().unwrap().iter().map(|x| x.as_i64().unwrap()).collect(),
             big_payload: v["big"].as_bool().unwrap_or(false),
             huge_payload: v["huge"].as_bool().unwrap_or(false),
+            id_family: v["id_family"].as_u64().unwrap_or(0) as u8,
         },
         cfg: Config { days: v["days"].as_i64().unwrap(), versions: v["versions"].as_u64().unwrap() as u32 },
         specs: v["specs"].as_array().unwrap().iter().filter_map(|x| spec_from_name(x.as_str().unwrap())).collect(),
@@ -1569,6 +1571,13 @@ pub fn worker_main() {
 }
 
 pub fn run(params: &SeqParams) -> SeqResult {
+    let r = run_inner(params);
+    // client ids of whatever family this run used do not outlive it in this process
+    crate::sut::set_id_family(0);
+    r
+}
+
+fn run_inner(params: &SeqParams) -> SeqResult {
     let start = Instant::now();
     let mut total = Stats::default();
     let mut findings: Vec<Finding> = vec![];
